@@ -11,7 +11,7 @@ CONSTANTS
   ResumeKinds = {"msg", "timeout", "expiration", "dial"}
   NodeKinds = {"act", "failact", "split", "wait", "enter"}
   DfltChoices = {TRUE, FALSE}
-  FaultKinds = {"flow_gone", "parent_gone", "node_gone", "pnode_gone", "wait_gone", "group_added"}
+  FaultKinds = {"flow_gone", "parent_gone", "node_gone", "pnode_gone", "wait_gone", "router_gone", "group_added"}
   MaxFaults = 1
   Quirks = {}
 VIEW core
